@@ -4,6 +4,7 @@ import (
 	"crypto/sha256"
 	"encoding/hex"
 	"math/big"
+	"sort"
 	"strings"
 
 	sdkmath "cosmossdk.io/math"
@@ -53,12 +54,13 @@ func (e IbcEngine) setupSteps(r *Run, st *IbcSt) []Step {
 	var out []Step
 	e18 := new(big.Int).Exp(big.NewInt(10), big.NewInt(18), nil)
 	out = append(out, ibcBlk(5000, Tx{K: "bank_send", S: "user/0", A: A("to", w.Key("relayer", 0).Bech(), "denom", fxtypes.DefaultDenom, "amount", e18.String())}))
-	for _, pr := range [][2]string{{"channel-0", "channel-1"}, {"channel-2", "channel-3"}} {
+	for i := 0; i+1 < len(st.Chans); i += 2 {
+		a, b := st.Chans[i], st.Chans[i+1]
 		out = append(out,
 			ibcBlk(5000, Tx{K: "ibc_chan_init", S: ibcRelayer}),
-			ibcBlk(5000, Tx{K: "ibc_chan_try", S: ibcRelayer, A: A("cp", pr[0])}),
-			ibcBlk(5000, Tx{K: "ibc_chan_ack", S: ibcRelayer, A: A("ch", pr[0], "cp", pr[1])}),
-			ibcBlk(5000, Tx{K: "ibc_chan_confirm", S: ibcRelayer, A: A("ch", pr[1])}))
+			ibcBlk(5000, Tx{K: "ibc_chan_try", S: ibcRelayer, A: A("cp", a)}),
+			ibcBlk(5000, Tx{K: "ibc_chan_ack", S: ibcRelayer, A: A("ch", a, "cp", b)}),
+			ibcBlk(5000, Tx{K: "ibc_chan_confirm", S: ibcRelayer, A: A("ch", b)}))
 	}
 	// contracts (all created by user/0, whose nonce is 1 after the bank send above)
 	u0 := w.Key("user", 0)
@@ -115,9 +117,9 @@ func (e IbcEngine) setupSteps(r *Run, st *IbcSt) []Step {
 	out = append(out, ibcBlk(5000, txs...))
 	// some memo-call senders exist as accounts, others do not
 	txs = nil
-	for _, ch := range ibcChannels {
+	for _, ch := range st.Chans[:4] {
 		for i := 0; i < st.NUser; i++ {
-			if rng.IntN(100) < 50 {
+			if st.C18 || rng.IntN(100) < 50 {
 				is := ibcIntermediate(ibcPort, ch, w.Key("user", i).Bech())
 				st.FundedInt[is.Hex()] = true
 				txs = append(txs, Tx{K: "bank_send", S: "user/0", A: A("to", sdk.AccAddress(is.Bytes()).String(), "denom", fxtypes.DefaultDenom, "amount", "1000")})
@@ -146,6 +148,11 @@ func (e IbcEngine) Gen(r *Run) Step {
 		s := st.Setup[0]
 		st.Setup = st.Setup[1:]
 		return s
+	}
+	if r.Cfg.Weights["toggle"] > 0 && r.Pct(6) {
+		if off := e.disabledPairs(r); len(off) > 0 { // governance switches a disabled pair on again
+			return Step{Kind: "gov", DtMs: 5000, A: A("what", "toggle", "token", off[0])}
+		}
 	}
 	for try := 0; try < 20; try++ {
 		kind := Weighted(r.Rng, r.Cfg.Weights)
@@ -209,14 +216,140 @@ func (e IbcEngine) genKind(r *Run, kind string) (Step, bool) {
 		return Step{Kind: "block", DtMs: dt, N: 1 + r.Rng.IntN(3), A: A("op", "jump")}, true
 	case "empty":
 		return Step{Kind: "block", DtMs: e.dt(r), N: 1 + r.Rng.IntN(4)}, true
+	case "toggle":
+		return e.genToggle(r)
+	case "collide":
+		return e.genCollide(r)
 	case "fundint":
-		ch := ibcChannels[r.Rng.IntN(4)]
+		ch := st.Chans[r.Rng.IntN(len(st.Chans))]
 		is := ibcIntermediate(ibcPort, ch, w.Key("user", r.Rng.IntN(st.NUser)).Bech())
 		if st.FundedInt[is.Hex()] {
 			return Step{}, false
 		}
 		st.FundedInt[is.Hex()] = true
 		return ibcBlk(e.dt(r), Tx{K: "bank_send", S: "user/0", A: A("to", sdk.AccAddress(is.Bytes()).String(), "denom", fxtypes.DefaultDenom, "amount", "1000")}), true
+	}
+	return Step{}, false
+}
+
+func (e IbcEngine) disabledPairs(r *Run) []string {
+	w := r.W
+	var off []string
+	for _, p := range w.App.Erc20Keeper.GetAllTokenPairs(w.Ctx()) {
+		if !p.Enabled {
+			off = append(off, p.Erc20Address)
+		}
+	}
+	sort.Strings(off)
+	return off
+}
+
+// genToggle: governance switches the conversion of a token pair off (or on again) while
+// transfers of that token may be in flight.
+func (e IbcEngine) genToggle(r *Run) (Step, bool) {
+	st := ibcState(r)
+	if off := e.disabledPairs(r); len(off) > 0 {
+		return Step{Kind: "gov", DtMs: 5000, A: A("what", "toggle", "token", off[r.Rng.IntN(len(off))])}, true
+	}
+	// prefer the token with EVM-started transfers in flight
+	inflight := map[string]int{}
+	for _, id := range st.Order {
+		if p := st.Pkts[id]; p.Settled == "" && p.FromEVM && !p.Origin {
+			inflight[p.Token]++
+		}
+	}
+	tok := st.WFX
+	if st.HasToken && (inflight[st.Token.Hex()] > inflight[st.WFX.Hex()] || (inflight[st.Token.Hex()] == inflight[st.WFX.Hex()] && r.Pct(50))) {
+		tok = st.Token
+	}
+	if inflight[tok.Hex()] == 0 && r.Pct(80) {
+		return Step{}, false
+	}
+	if _, ok := r.W.App.Erc20Keeper.GetTokenPair(r.W.Ctx(), tok.Hex()); !ok {
+		return Step{}, false
+	}
+	return Step{Kind: "gov", DtMs: 5000, A: A("what", "toggle", "token", tok.Hex())}, true
+}
+
+const ibcFiller = "filler"
+
+// genCollide (runs with seven channel pairs): one block that brings the send sequences of
+// channel-1 and channel-1d (d = 1..3) to 10d+y and y with cheap filler transfers and then starts
+// one EVM transfer on each, so that both are in flight together.
+func (e IbcEngine) genCollide(r *Run) (Step, bool) {
+	st := ibcState(r)
+	w := r.W
+	if len(st.Chans) < 14 {
+		return Step{}, false
+	}
+	ctx := w.Ctx()
+	next := func(ch string) int {
+		n, ok := w.App.IBCKeeper.ChannelKeeper.GetNextSequenceSend(ctx, ibcPort, ch)
+		if !ok {
+			return -1
+		}
+		return int(n)
+	}
+	n1 := next("channel-1")
+	ds := []int{1, 2, 3}
+	r.Rng.Shuffle(3, func(i, j int) { ds[i], ds[j] = ds[j], ds[i] })
+	for _, d := range ds {
+		chx := "channel-1" + string(rune('0'+d))
+		nx := next(chx)
+		if n1 < 1 || nx < 1 || nx > 9 {
+			continue
+		}
+		y := nx
+		if n1-10*d > y {
+			y = n1 - 10*d
+		}
+		if y > 9 {
+			continue
+		}
+		f1, fx := 10*d+y-n1, y-nx
+		if f1 < 0 || f1+fx > 14 {
+			continue
+		}
+		var txs []Tx
+		filler := func(ch, denom string, i int) Tx {
+			u := i % st.NUser
+			return Tx{K: "ibc_transfer", S: KeyName("user", u), A: A("ch", ch, "denom", denom, "amount", "1", "receiver", w.Key("user", (u+1)%st.NUser).Bech(), "th", w.Height+1_000_000, "tt", 0, "memo", ibcFiller)}
+		}
+		for i := 0; i < f1; i++ {
+			txs = append(txs, filler("channel-1", ibcV("channel-1"), i))
+		}
+		for i := 0; i < fx; i++ {
+			txs = append(txs, filler(chx, fxtypes.DefaultDenom, i))
+		}
+		// the two EVM-started transfers
+		ua, ub := r.Rng.IntN(st.NUser), r.Rng.IntN(st.NUser)
+		tokA := st.WFX
+		if st.HasToken && r.Pct(60) {
+			tokA = st.Token
+		}
+		recA := w.Key("user", r.Rng.IntN(st.NUser)).Hex().Hex()
+		if r.Pct(35) {
+			recA = common.BytesToAddress(authtypes.NewModuleAddress(authtypes.FeeCollectorName)).Hex() // rejected on arrival
+		}
+		mk := func(u int, tok common.Address, ch string, receipt string) (Tx, bool) {
+			amt := big.NewInt(int64(1 + r.Rng.IntN(1_000_000)))
+			target := "ibc/" + ibcChanNum(ch) + "/0x"
+			data, err := cctypes.GetABI().Pack("crossChain", tok, receipt, amt, big.NewInt(0), fxtypes.MustStrToByte32(target), "")
+			if err != nil {
+				return Tx{}, false
+			}
+			return ibcEth(KeyName("user", u), "crosschain", cctypes.GetAddress().Hex(), data, "0", "token", tok.Hex(), "amount", amt, "receipt", receipt, "target", target), true
+		}
+		ta, ok1 := mk(ua, tokA, "channel-1", recA)
+		tb, ok2 := mk(ub, st.WFX, chx, w.Key("user", r.Rng.IntN(st.NUser)).Hex().Hex())
+		if !ok1 || !ok2 {
+			return Step{}, false
+		}
+		txs = append(txs, ta, tb)
+		s := ibcBlk(e.dt(r), txs...)
+		s.A = A("op", "collide")
+		r.Probe("collide-attempt")
+		return s, true
 	}
 	return Step{}, false
 }
@@ -278,9 +411,42 @@ func (e IbcEngine) genMemo(r *Run) string {
 	}
 	c := st.Callee.Hex()
 	n := r.Rng.IntN(100)
+	if st.C18 { // mostly calls that fail after the transfer's own writes
+		switch {
+		case n < 14:
+			return ibcMemoString(c, "00", "0")
+		case n < 34:
+			return ibcMemoString(c, "01", "0")
+		case n < 46:
+			return ibcMemoString(c, "04", "0")
+		case n < 58:
+			return ibcMemoString(c, "03", "0")
+		case n < 63:
+			return ibcMemoString(c, "02", "0")
+		case n < 72:
+			return ibcMemoString(c, "01", "1")
+		case n < 76:
+			return ibcMemoString(c, "03", "1")
+		case n < 81:
+			return ibcMemoString(c, "00", "1")
+		case n < 86:
+			return ibcMemoString(c, "00", "100000") // more than the sender account holds
+		case n < 90:
+			return ""
+		case n < 94:
+			return ibcMemoString("0x12", "00", "0")
+		case n < 97:
+			return "{not json"
+		}
+		return ibcMemoString(r.W.Key("user", 0).Hex().Hex(), "", "0")
+	}
 	switch {
-	case n < 45:
+	case n < 41:
 		return ""
+	case n < 43:
+		return ibcMemoString(c, "03", "0") // INVALID opcode
+	case n < 45:
+		return ibcMemoString(c, "04", "0") // reverts with data
 	case n < 65:
 		return ibcMemoString(c, "00", "0")
 	case n < 74:
@@ -341,9 +507,18 @@ func (e IbcEngine) genXfer(r *Run) Tx {
 	default:
 		ch, denom = "channel-0", ibcV("channel-1") // voucher over the wrong channel: second hop
 	}
-	_ = st
 	bal := w.App.BankKeeper.GetBalance(w.Ctx(), k.Acc(), denom).Amount.BigInt()
 	amt := e.genAmount(r, bal)
+	if st.C18 && r.Pct(85) {
+		// a packet that is credited (and converted) before its memo call runs
+		signer = KeyName("user", r.Rng.IntN(st.NUser))
+		amt = big.NewInt(int64(1 + r.Rng.IntN(1_000_000)))
+		recv := w.Key("user", r.Rng.IntN(st.NUser)).Hex().Hex()
+		if denom != fxtypes.DefaultDenom && r.Pct(30) {
+			recv = w.Key("user", r.Rng.IntN(st.NUser)).Bech() // native FX returning home to a bech32 receiver
+		}
+		return Tx{K: "ibc_transfer", S: signer, A: A("ch", ch, "denom", denom, "amount", amt.String(), "receiver", recv, "th", w.Height+100000, "tt", 0, "memo", e.genMemo(r))}
+	}
 	var th int64
 	var tt uint64
 	switch r.Rng.IntN(4) {
@@ -381,10 +556,10 @@ func (e IbcEngine) genEvm(r *Run) (Tx, bool) {
 		}
 	case n < 90:
 		token = st.WFX
-		chNum = ibcChanNum(ibcChannels[r.Rng.IntN(4)])
+		chNum = ibcChanNum(st.Chans[r.Rng.IntN(len(st.Chans))])
 	default:
 		token = common.Address{} // origin token: msg.value
-		chNum = ibcChanNum(ibcChannels[r.Rng.IntN(4)])
+		chNum = ibcChanNum(st.Chans[r.Rng.IntN(len(st.Chans))])
 	}
 	if r.Pct(3) {
 		chNum = "7" // channel that does not exist
@@ -519,10 +694,25 @@ func (e IbcEngine) genRelayTx(r *Run, have []Tx) (Tx, bool) {
 		if p.Dropped && !p.Recvd && !elapsedNext(p) {
 			continue
 		}
+		if p.RawOK && p.Data.Memo == ibcFiller { // sequence fillers are left to the final drain
+			continue
+		}
 		work = append(work, p)
 	}
 	if len(work) == 0 {
 		return Tx{}, false
+	}
+	// while governance has a token pair switched off the relayer is eager to settle the
+	// EVM-started transfers of that token (their refunds need the conversion)
+	if off := e.disabledPairs(r); len(off) > 0 && r.Pct(70) {
+		for _, q := range work {
+			if q.FromEVM && !q.Origin && (q.Token == off[0] || (len(off) > 1 && q.Token == off[1])) && (q.Recvd || elapsedNext(q)) {
+				if q.Recvd {
+					return relay("ibc_ack", q)
+				}
+				return relay("ibc_timeout", q)
+			}
+		}
 	}
 	p := work[0]
 	if cfg.FaultOn("reorder") && len(work) > 1 && r.Pct(50) {
